@@ -1,14 +1,21 @@
 P = {
-    "gens": ["C20dtlsr", "C20fwd"],
+    "gens": ["C20dtlsr", "C20fwd", "C20conc"],
     "theorems": ["C20_bf_correct", "C20_table_spec", "C20_next_hop_is_neighbour", "C20_next_hop_is_neighbour_refuted", "C20_checker_exact",
-                 "C20_replace", "C20_replace_any_order", "C20_replace_only_newer",
+                 "C20_replace", "C20_replace_any_order", "C20_replace_only_newer", "C20_connected_neighbour_live",
                  "C20_forward", "C20_forward_broadcast"],
     "rule": "real DTLSR instance fed real link-state bundles / peer events: ShouldReplace on 144 timestamp pairs; all arrival "
             "orders of <=4 updates over 3 timestamps (120 histories); every 3-node graph (6 arcs x {absent, live, lost 100 s, "
             "lost 200 s}; thorough: all 4096, quick: a third); 4-node graphs over the 9 arcs not entering the node itself x 4 "
             "states (thorough: all 262144, quick: every 97th); random graphs on 2..8 nodes with ties; random histories of "
-            "notify/appear/disappear/purge/compute/cron with a checkpoint after every operation; forwarding through a whole "
-            "Core (unicast, service endpoints, unknown nodes, broadcast relay / re-offer / own broadcast). "
+            "notify/appear/disappear/purge/compute/cron with a checkpoint after every operation; neighbours that come back "
+            "(lost 1..45 units ago and re-appeared before / after the purge time of 30.5 units, next to a live / more recently "
+            "lost / long lost alternative; a dense random family of appear/disappear/purge/compute over 2-5 neighbours): at every "
+            "checkpoint the node's own record of every currently connected neighbour must be live, and the table is also judged "
+            "against the graph with those links at cost 0; concurrent delivery: 2-8 goroutines released together hand updates of "
+            "one origin with distinct timestamps to NotifyNewBundle (new and known origins, a third through the wire form) next to "
+            "the recompute job, 600 rounds (thorough 15000): the stored record is the newest delivered; forwarding through a whole "
+            "Core (unicast, service endpoints, unknown nodes, broadcast relay / re-offer / own broadcast, a peer that goes down "
+            "and comes back before the table is computed). "
             "distinct = distinct case bodies",
     "assumptions": ["every recorded loss time lies in the past of the recomputation (dt_past); |now - t| < 2^63"],
     "trusted_base": ["github.com/RyanCarrier/dijkstra v1.0.0 is not modelled: its output (the Go routing table) is validated "
@@ -22,7 +29,8 @@ P = {
                   "state; replacement proved for every history / arrival order; forwarding choice proved. The Go table is "
                   "validated against the proved checker (translation validation), the state and forwarding compared with the model.",
     "level_note": "Proof is about the model; the Dijkstra library is trusted only as far as its output is validated per case. "
-                  "The atomicity of the DTLSR handlers (dataMutex) and the cron goroutines are outside the model. "
+                  "The atomicity of NotifyNewBundle (dataMutex held from look-up to store) is not modelled: it is sampled by the "
+                  "concurrent-delivery scenario, whose verdict relies on C20_replace_any_order; the cron goroutines are outside the model. "
                   "Records claiming the node's own ID and peers that disappear without having appeared are modelled as they are.",
     "timeout_quick": 600,
     "timeout_thorough": 6000,
